@@ -151,6 +151,18 @@ class FiltersSet:
         """
         return '"%s"' % str(value).replace("\\", "\\\\").replace('"', '\\"')
 
+    def __add_match_type(self, cmd: commands.Command, tag: str) -> None:
+        """Give a match type tag to a test.
+
+        The extension the tag needs (relational, regex) is added to
+        the requirements of this set. It does not depend on what a
+        parser loaded before.
+        """
+        extension = commands.match_type["extension_values"].get(tag.lower())
+        if extension:
+            self.require(extension)
+        cmd.check_next_arg("tag", tag, check_extension=False)
+
     def __build_condition(
         self, condition: List[str], parent: commands.Command, tag: Optional[str] = None
     ) -> commands.Command:
@@ -165,7 +177,7 @@ class FiltersSet:
         if tag is None:
             tag = condition[1]
         cmd = commands.get_command_instance("header", parent)
-        cmd.check_next_arg("tag", tag)
+        self.__add_match_type(cmd, tag)
         if isinstance(condition[0], list):
             cmd.check_next_arg(
                 "stringlist", [self.__quote_if_necessary(c) for c in condition[0]]
@@ -237,7 +249,7 @@ class FiltersSet:
                     negate = True
                 else:
                     comp_tag = c[1]
-                cmd.check_next_arg("tag", comp_tag)
+                self.__add_match_type(cmd, comp_tag)
                 cmd.check_next_arg(
                     "stringlist",
                     "[{}]".format(",".join(self.__quote(val) for val in c[2])),
@@ -253,7 +265,7 @@ class FiltersSet:
                     negate = True
                 else:
                     comp_tag = c[1]
-                cmd.check_next_arg("tag", comp_tag)
+                self.__add_match_type(cmd, comp_tag)
                 for arg in c[2:]:
                     if isinstance(arg, str):
                         finalarg = self.__quote_if_necessary(arg)
@@ -272,7 +284,7 @@ class FiltersSet:
                     negate = True
                 else:
                     comp_tag = c[2]
-                cmd.check_next_arg("tag", comp_tag)
+                self.__add_match_type(cmd, comp_tag)
                 cmd.check_next_arg(
                     "stringlist", "[%s]" % (",".join(self.__quote(val) for val in c[3:]))
                 )
